@@ -2,13 +2,14 @@
 are verified by Kani on the real tables (ledger tbl_*), here only their signatures are extracted and the
 ledger contract is attached."""
 from vlib.extract import Fn, Impl, Verbatim, Text, Module, Loop
+from .lib_common import BROADCAST, FACTS
 
 BOOL_FNS = [
     ('is_letter_digit', 't_letter_digit'), ('is_join_control', 't_join_control'),
     ('is_old_hangul_jamo', 't_old_hangul_jamo'), ('is_unassigned', 't_unassigned'), ('is_ascii7', 't_ascii7'),
     ('is_control', 't_control'), ('is_precis_ignorable_property', 't_precis_ignorable'), ('is_space', 't_space'),
     ('is_symbol', 't_symbol'), ('is_punctuation', 't_punctuation'), ('is_other_letter_digit', 't_other_letter_digit'),
-    ('has_compat', 't_has_compat'), ('is_virama', 't_virama'), ('is_greek', 't_greek'), ('is_hebrew', 't_hebrew'),
+('is_virama', 't_virama'), ('is_greek', 't_greek'), ('is_hebrew', 't_hebrew'),
     ('is_hiragana', 't_hiragana'), ('is_katakana', 't_katakana'), ('is_han', 't_han'),
     ('is_dual_joining', 't_dual_joining'), ('is_left_joining', 't_left_joining'),
     ('is_right_joining', 't_right_joining'), ('is_transparent', 't_transparent'),
@@ -24,5 +25,8 @@ def module(repo):
     ]
     for fn, sp in BOOL_FNS:
         items.append(Fn(fn, ret='r', mode='sig', ensures=[('LEDGER.tbl_%s' % fn, 'r == %s(cp)' % sp)]))
+    # has_compat: real body; HasCompat (RFC 8264 9.17) is DEFINED as "NFKC(cp) != cp" over the uninterpreted normaliser
+    items.append(Fn('has_compat', ret='r', head=FACTS,
+                    ensures=[('C14+C01.has_compat', 'r == t_has_compat(cp)')]))
     return Module('common', 'precis-core/src/common.rs', items,
-                  header='use super::*;\nuse crate::spec::*;\nuse crate::precis_core::DerivedPropertyValue;\n')
+                  header='use super::*;\nuse crate::vx::*;\nuse crate::spec::*;\nuse crate::precis_core::DerivedPropertyValue;\n' + BROADCAST)
